@@ -14,18 +14,57 @@ THEOREMS = [
     "BeyondVerif.C12.length_checked",
     "BeyondVerif.C12.line_number_checked",
     "BeyondVerif.C12.digit_corruption_rejected",
+    "BeyondVerif.C12.epoch_roundtrip",
+    "BeyondVerif.C12.from_string_yields_valid_entries_partial",
+    "BeyondVerif.C12.reference_tles_roundtrip",
     "BeyondVerif.C12W.leading_blank_accepted_misparsed",
     "BeyondVerif.C12W.from_string_loses_valid_entry",
     "BeyondVerif.C12W.ecc_rounds_to_zero",
 ]
-LEVEL_TEXT = ""
-LEVEL_NOTE = ""
+LEVEL_TEXT = ("Lean theorems over a List Char / Int model of beyond/io/tle.py whose column slices and writer layout are regenerated from the Python AST on every "
+              "run (the hand-modelled functions are compared statement by statement with the source the model was written from): for EVERY line the "
+              "modulo-10 checksum changes under every single-digit substitution below column 69; _check_validity accepts exactly the texts with two "
+              "correctly numbered first lines whose every line is 69 characters with a matching 69th character (valid_iff), hence wrong length, wrong "
+              "line number and every single-digit corruption of a 69-character line (line number and check digit included) are rejected; the epoch "
+              "field is read as exactly 864 us per 1e-8 day and written back unchanged for every day of every year; from_string yields exactly the "
+              "accepted entries of every text whose element lines kept their '1 '/'2 ' prefixes. Exact differential correspondence of the model with "
+              "Tle, Tle.from_orbit, Tle.from_string, _float, _unfloat (2e4 quick / 2e5 thorough cases, all corruption kinds).")
+LEVEL_NOTE = ("proof (partial): the round-trip clauses parse_write_id / write_parse_id / written_lines_valid / unfloat_float_id for ALL field combinations are "
+              "NOT proved in Lean (open obligations): they are kernel-evaluated on the three reference TLEs and otherwise rest on the exact correspondence and "
+              "the oracle sweep; four clauses are false of the current code (open findings with kernel-checked counter-witnesses); decimal<->double conversion "
+              "is replaced by exact decimal arithmetic in the model; Lean kernel + propext/Classical.choice/Quot.sound")
 TECHNIQUE = "Lean 4 proofs over a List Char / Int model of tle.py whose column table and writer layout are regenerated from the Python AST; exact model/implementation correspondence"
-TRUSTED = []
-ASSUMPTIONS = []
-NOT_COVERED = []
-OPEN = []
-RULE = ""
+TRUSTED = [
+    "harness/props/C12.py extract: reads the column slices of Tle.__init__, the two str.format layouts and keyword expressions of Tle.from_orbit from the AST -> Generated/TleColumns.lean; "
+    "refuses to run (check reports the model as no longer tied) when _float, _unfloat, _checksum, _check_validity or from_string differ statement-wise from the modelled source",
+    "lean/BeyondVerif/Model/Tle.lean (hand-written: int()/float() sub-grammar, _float, _unfloat, Tle.__init__, orbit()+from_orbit numeric prelude as exact decimal rounding, from_string), tied by the correspondence run",
+    "correspondence harness: exact comparison of strings, integers, error kinds and line numbers; parsed floats compared with the model's exact decimals to 1e-13 relative; epoch to the microsecond",
+]
+ASSUMPTIONS = [
+    "texts are printable ASCII; int()/float() are modelled on the grammar [blanks][sign]digits[.digits] (no exponents, underscores, inf/nan, non-ASCII digits) — every numeric column of a generated or digit-corrupted TLE is in it",
+    "CPython float<->decimal conversion is correctly rounded and the float operations of orbit()/from_orbit (x*2/2, x*6/6, deg2rad/degrees, n*86400/2pi round trip, the day-of-year sum) do not move a printed-grid value across a rounding boundary: "
+    "the model rounds the exact decimal half-even; exact decimal ties (only possible for non-canonical 6+ digit drag mantissas) are excluded from the comparison",
+    "Date(datetime) -> change_scale('UTC').datetime is the identity on UTC microseconds (checked to the microsecond by the correspondence on every parsed case)",
+    "canonical TLE = what the writer can produce: classification U, ephemeris type 0, drag terms with 5-digit normalised mantissa and one-digit exponent (zero as 00000-0), name line without '0 ' prefix or surrounding blanks",
+]
+NOT_COVERED = [
+    "classification other than U, ephemeris type other than 0, non-normalised or two-digit-exponent drag terms (e.g. ' 04982-9' is rewritten '49820-10'; negative ones overflow the column and are refused): outside the quantifier, model and code agree on them",
+    "the writer emits 360.0000 for an angle within 5e-5 deg below 360 and day (N+1).00000000 for the last 432 us of a year: same elements / same instant, but a second generation prints 0.0000 / day 1 of the next year (counted by the oracle, not failed)",
+    "a line that is neither '1 ' nor '2 ' (e.g. a second line whose number was corrupted to 3) is by design taken as the name line of the following two-line-format entry: the entry is yielded with that name",
+    "four clauses are false of the current code: open findings C12-leading-blank-misparsed, C12-from-string-stale-line1, C12-eccentricity-rounds-to-one, C12-missing-line-indexerror",
+]
+OPEN = [
+    "written_lines_valid (for ALL records in range: 69 characters, valid checksums) — not proved; exact correspondence on 400/6000 in-range and 200/3000 out-of-range records, oracle on 1000/10000 float orbits",
+    "parse_write_id / write_parse_id (for ALL in-range records: parseTle (writeRec r) gives back r, hence write . parse is the identity on canonical lines) — not proved; kernel-evaluated on the three reference TLEs (reference_tles_roundtrip); "
+    "exact correspondence of parse, of write and of parse->write with the code on every generated TLE",
+    "unfloat_float_id / float_unfloat_id on (sign, mantissa, exponent) triples — not proved; exact correspondence of _float / _unfloat on 1500/30000 strings",
+    "from_string for texts in which an element line lost its '1 '/'2 ' prefix: false of the code for 2 -> 1 (finding), otherwise only enumerated by the oracle (directed scenarios for every replacement digit, named/unnamed neighbours)",
+]
+RULE = ("correspondence: records with every field drawn from its full range with edge values (0, max, 10^k boundaries, year pivot 56/57, leap days), written by an "
+        "independent column-table writer; for each: parse, parse->write, write (in and out of range), all single-digit substitutions (exhaustive on 3/50 TLEs, 30 per line "
+        "otherwise), deletions/insertions/truncations/leading and trailing blanks, every line-number replacement, 1/4-line texts, non-canonical accepted fields; _float/_unfloat "
+        "strings; multi-entry texts with corrupted entries. non-trivial = every case (key = the text); oracle: the property's clauses on Tle, Tle.from_orbit, Tle.from_string, "
+        "_float, _unfloat with tolerances of half a printed unit (epoch 1e-8 day)")
 
 TLE_PY = os.path.join(core.REPO, "beyond", "io", "tle.py")
 
@@ -405,7 +444,7 @@ def gen_float_orbit(rng):
             "revolutions": rng.choice([0, 9, 99999, 10000, rng.randint(0, 99999)]), "type": 0}
     n_revday = rng.choice([0.0, 16.99999999, 9.999999996, 1.00273791, 1e-9]) if rng.random() < 0.08 else rng.uniform(0, 17)
     vals = [ang(), ang(), ecc(), ang(), ang(), min(n_revday, 16.999999994) * 2 * math.pi / 86400.0]
-    return real_orbit(vals, date, **data), {"vals": vals, "date": str(date), "data": data}
+    return real_orbit(vals, date, **data), {"vals": vals, "date": str(date), "epoch": [y, us], "data": data}
 
 
 def o_write(out, rng):
@@ -614,7 +653,55 @@ def oracle(ctx, widened):
 
 
 def replay(f):
+    """re-run one recorded failing input on the real API"""
+    import random
+    from datetime import datetime, timedelta
     out = Outcome()
+    i = f["input"]
+    fam = f["family"]
+    rng = random.Random(0)
+    if "record" in i:
+        r = dict(i["record"])
+        for k in ("ndot", "ndd", "bstar"):
+            r[k] = tuple(r[k])
+        o_write_grid(out, r)
+    elif "vals" in i:
+        from beyond.dates import Date
+        y, us = i["epoch"]
+        orb = real_orbit(i["vals"], Date(datetime(y, 1, 1) + timedelta(microseconds=us)), **i["data"])
+        tle, err = write_checks(out, orb, "written TLE does not parse back to the orbit's elements", i)
+        if tle is not None and fam == "rewrite-not-stable":
+            from beyond.io.tle import Tle
+            if str(Tle.from_orbit(tle.orbit())) != str(tle):
+                out.fail(fam, f["what"], i)
+    elif "original" in i:
+        k0, base = try_parse(i["original"])
+        k, t = try_parse(i["text"])
+        if k.startswith("other") or (k == "ok" and not (k0 == "ok" and same_elements(t, base))):
+            out.fail(fam, f["what"], i, observed=k)
+    elif fam.startswith("corrupt-"):
+        k, t = try_parse(i["text"])
+        if k == "ok" or k.startswith("other"):
+            out.fail(fam, f["what"], i, observed=k)
+    elif "kinds" in i:
+        from beyond.io.tle import Tle
+        try:
+            got = [t.text for t in Tle.from_string(i["text"], error="ignore")]
+        except Exception as e:  # noqa
+            got = repr(e)
+        if got != f["expected"]:
+            out.fail(fam, f["what"], i, observed=got, expected=f["expected"])
+    elif "text" in i:
+        k, tle = try_parse(i["text"])
+        if k != "ok":
+            out.fail(fam, f["what"], i, observed=k)
+        else:
+            try:
+                back = real_write_from_tle(tle)
+            except Exception as e:  # noqa
+                back = repr(e)
+            if back != i["text"] or str(tle) != i["text"]:
+                out.fail(fam, f["what"], i, observed=back, expected=i["text"])
     return out
 
 
